@@ -114,6 +114,7 @@ def run(ctx):
         env["VERIF_CORPUS"] = os.path.join(os.path.dirname(os.path.dirname(os.path.abspath(__file__))), "harness", "corpus", "C16")
         env["VERIF_HISTORIES"] = 1500 if ctx.thorough else 160
         env["VERIF_OPS"] = 60 if ctx.thorough else 40
+        env["VERIF_SLEEP_HISTORIES"] = 12 if ctx.thorough else 2
     rc, log, out = ctx.run_harness(binary, "TestVerifC16", env, timeout=3000)
     if rc != 0:
         ctx.oblige("harness-runs", False, log[-1500:])
@@ -129,7 +130,6 @@ def run(ctx):
     # ---------- direct property oracle on the implementation's own lines ----------
     classes, results, distinct = Counter(), Counter(), set()
     oracle_fail = Counter()
-    seen_sig = set()
     hist_start = 0
     d = None
     prev = None
@@ -141,14 +141,19 @@ def run(ctx):
     wipes = 0              # times the client's seed changed from one list to another (wipeOnSeedChange fired)
     n_checked_conv = 0
 
+    known_sig = {}         # signature -> True if it matches an open known finding
+    oracle_known = Counter()
+
     def report(sig, what, i):
-        oracle_fail[sig] += 1
-        if sig in seen_sig:
-            return
-        seen_sig.add(sig)
-        text = "\n".join(ops_txt[hist_start:i + 1]) + "\n"
-        ctx.violation(sig, what + f" (history starting at op {hist_start}, failing op {i}: {impl[i][:300]})",
-                      sig.split(":", 1)[1] + ".jsonl", text)
+        if sig not in known_sig:
+            text = "\n".join(ops_txt[hist_start:i + 1]) + "\n"
+            fresh = ctx.violation(sig, what + f" (history starting at op {hist_start}, failing op {i}: {impl[i][:300]})",
+                                  sig.split(":", 1)[1] + ".jsonl", text)
+            known_sig[sig] = not fresh
+        if known_sig[sig]:
+            oracle_known[sig] += 1
+        else:
+            oracle_fail[sig] += 1
 
     for i, line in enumerate(impl):
         op = ops[i] if i < len(ops) else {}
@@ -278,6 +283,8 @@ def run(ctx):
                        "server resets (seed change), polls, polls with 1-3 server events between the two reads of sqlStore.get (gorm callback gate), validate(); "
                        "after every op the full server list, client replica and client search are compared with the model and checked by the direct oracle. "
                        "distinct_nontrivial = distinct (op, canonical state) lines with a non-empty list")
+    if oracle_known:
+        ctx.notes.append("oracle hits explained by open known findings: " + "; ".join(f"{k} x{v}" for k, v in oracle_known.items()))
     ctx.cov["input_distribution"] = {"op_classes": dict(classes.most_common()), "results": dict(results.most_common()),
                                      "histories": sum(1 for o in ops if o.get("op") == "init"), "convergence_checks": n_checked_conv}
     ctx.cov["samples"] = [ops_txt[1][:300] if len(ops_txt) > 1 else "", impl[-1][:300] if impl else ""]
